@@ -74,7 +74,10 @@ def replay_identity(p):
     from dliswriter.logical_record.core.attribute.attribute import Attribute
     from dliswriter.utils.internal.internal_enums import RepresentationCode as RepC
     from dliswriter.utils.internal.struct_writer import write_struct
-    write_struct.cache_clear()
+    import dliswriter.utils.internal.struct_writer as _sw
+    for _f in vars(_sw).values():
+        if hasattr(_f, 'cache_clear'):
+            _f.cache_clear()
     origin, copy, n, fn = p['args'][:4]
     name = 'N' * n
 
